@@ -293,7 +293,7 @@ def check(ctx):
     mb = prog.must_body(ENC_MAC)
     for v in prog.adt_variants(JALG):
         r = run(mb, {1: Val("ref", marker("KEY")), 2: Val("ref", variant(JALG, v)), 3: Val("ref", marker("KID")), 4: Val("ref", marker("PAYLOAD")), 5: Val("ref", marker("URL"))},
-                success_model(mb, lambda cs_, a_: None), max_steps=20000)
+                success_model(mb, lambda cs_, a_: None), max_steps=40000, follow=lambda cs_: (cs_.name or "").startswith(("acmed::jws::", "<acmed::jws::")))
         macs = [(c_, [x.deref() for x in a_]) for c_, a_, res_ in r.calls if (c_.name or "").endswith("::hmac")]
         if v.startswith("Hs"):
             good = r.kind == "return" and len(macs) == 1 and macs[0][1][0].k == "variant" and macs[0][1][0].v == "Sha" + v[2:] and "KEY" in repr(macs[0][1][1])
@@ -387,7 +387,9 @@ def check_shape(ctx):
                 skipped.add(strs[0])
         ctx.require(R7, names == prog.adt_fields(adt), "%s:%s" % (b.file, b.line), "%s serialises members %s under their own names" % (adt.rsplit("::", 1)[1], names), [adt, "member-names"])
         ctx.require(R7, skipped == opt, "%s:%s" % (b.file, b.line), "%s: members omitted when absent = %s (expected %s)" % (adt.rsplit("::", 1)[1], sorted(skipped), sorted(opt)), [adt, "optional-members"])
-    for fn, lit_checks in ((ENC_JWK, {"jwk": "Some", "kid": "None"}), (ENC_KID, {"jwk": "None", "kid": "Some"}), (ENC_MAC, {"jwk": "None", "kid": "Some", "nonce": "None"})):
+    jt = jws_table(prog)
+    # evaluation first: the three encoders are evaluated into JWS terms below; the literal-by-literal description is the fallback
+    for fn, lit_checks in ([] if jt is not None else [(ENC_JWK, {"jwk": "Some", "kid": "None"}), (ENC_KID, {"jwk": "None", "kid": "Some"}), (ENC_MAC, {"jwk": "None", "kid": "Some", "nonce": "None"})]):
         b = prog.must_body(fn)
         for i, st in agg_assigns(b, PH):
             fs = st["rv"]["fields"]
@@ -409,7 +411,6 @@ def check_shape(ctx):
                 ctx.require(R7, arg_origins(c, 0).has_leaf("param:1") and arg_origins(c, 1).has_leaf("param:2"), c.where(), "%s signs with its key_pair / sign_alg arguments" % fn.rsplit("::", 1)[1], [fn, "sign-args"])
                 pay_param = {ENC_JWK: "param:3", ENC_KID: "param:4"}[fn]
                 ctx.require(R7, arg_origins(c, 3).has_leaf(pay_param), c.where(), "%s: payload argument forwarded" % fn.rsplit("::", 1)[1], [fn, "payload"])
-    jt = jws_table(prog)
     if jt is not None:
         for what, got, want in jt:
             ctx.require(R7, got == want, "acmed/src/jws.rs", "%s evaluates to the flattened JWS %s (expected %s)" % (what, got if got != want else "of RFC 7515 section 7.2.2", want), ["acmed::jws", "evaluated", what])
